@@ -4,6 +4,10 @@ mod c02;
 mod c03;
 mod c04;
 mod c05;
+mod c07;
+mod c08;
+mod c13;
+mod selectors;
 mod interp;
 mod pushref;
 mod util;
@@ -65,6 +69,9 @@ fn main() {
             "C04" => c04::replay(&v["replay"]),
             "C03" => c03::replay(&v["replay"]),
             "C05" => c05::replay(&v["replay"]),
+            "C07" => c07::replay(&v["replay"]),
+            "C08" => c08::replay(&v["replay"]),
+            "C13" => c13::replay(&v["replay"]),
             "C01" => c01::replay(c01::Mode::C01, &v["replay"]),
             "C02" => c01::replay(c01::Mode::C02, &v["replay"]),
             _ => {
@@ -79,6 +86,9 @@ fn main() {
         "C04" => c04::run(&mut run),
         "C03" => c03::run(&mut run),
         "C05" => c05::run(&mut run),
+        "C07" => c07::run(&mut run),
+        "C08" => c08::run(&mut run),
+        "C13" => c13::run(&mut run),
         "C01" => c01::run(c01::Mode::C01, &mut run),
         "C02" => c01::run(c01::Mode::C02, &mut run),
         _ => {
